@@ -471,7 +471,7 @@ def rule_nesting(ck: Check, repo: Repo) -> None:
         def event(self, text, call, it):
             f = ast.unparse(call.func)
             if re.fullmatch(r"result\[.*\]\.append", f):
-                return ("collect", ast.unparse(call.func.value.slice), text)
+                return ("collect", it.text(call.func.value.slice), text)     # the key through a local that names it
             return None
 
         def store(self, ttext, vt, target, it):
